@@ -330,6 +330,132 @@ def client_workload(part, tier):
             w0.close()
 
 
+# text shapes a password / user name can legally have in a configuration file or as an argument;
+# {c} is the canary (hex text, so that every shape stays one config-file line)
+SECRET_SHAPES = ['{c}', '%{c}', '{c}%', 'pw-%({c})s', '%%{c}', '${{{c}}}', '{c} ; x', '{c}=y', '"{c}"',
+                 '{c}\\', ' {c} ', '%s{c}', '{{0}}{c}', '{c}#frag']
+
+
+def config_workload(part, tier):
+    """Clients built from configuration files and from arguments whose password / user name are
+    canaries in every text shape of SECRET_SHAPES; then one operation each against the real server
+    (the request carries the credential) and against a scripted failure."""
+    import os
+    import shutil
+    import tempfile
+    from kmip.pie import client as pie_client
+    from kmip.services import kmip_client as kc
+    from kmip.services.server import config as server_config
+    global _FORMS
+    pw = CANARIES['password'].hex()
+    user = canary('username', 12).hex()
+    saved = _FORMS
+    _FORMS = canary_forms() + [('password-text', pw), ('password-text', pw.upper())]
+    tmp = tempfile.mkdtemp(prefix='verif-c20-', dir=W.SCRATCH_BASE)
+    c19._BASE = None
+    w0, ids = c19.base()
+    try:
+        for i, shape in enumerate(SECRET_SHAPES):
+            secret = shape.format(c=pw)
+            path = os.path.join(tmp, 'pykmip-%d.conf' % i)
+            with open(path, 'w') as f:
+                f.write("[client]\nhost=127.0.0.1\nport=5696\nkeyfile=None\ncertfile=None\n"
+                        "cert_reqs=CERT_REQUIRED\nssl_version=PROTOCOL_SSLv23\nca_certs=None\n"
+                        "do_handshake_on_connect=True\nsuppress_ragged_eofs=True\n"
+                        "username=%s\npassword=%s\n" % (user, secret))
+            builders = {
+                'pie-config': lambda: pie_client.ProxyKmipClient(config='client', config_file=path),
+                'proxy-config': lambda: kc.KMIPProxy(config='client', config_file=path),
+                'pie-args': lambda: pie_client.ProxyKmipClient(username=user, password=secret),
+                'proxy-args': lambda: kc.KMIPProxy(username=user, password=secret),
+            }
+            for bname, build in builders.items():
+                ctx = {'workload': 'config', 'builder': bname, 'shape': shape}
+                where = 'config-%s|%s' % (bname, shape)
+                W.LOGS.clear()
+                try:
+                    c = build()
+                except Exception as e:   # noqa - an unusable configuration may be refused, quietly
+                    hits = scan(str(e))
+                    if hits:
+                        part.violation("client-error-text|config|%s" % hits[0],
+                                       "building a client (%s, password shape %r) raised an error "
+                                       "containing %s" % (bname, shape, hits), ctx)
+                    part.count('executions')
+                    scan_records(part, where, ctx)
+                    continue
+                part.count('executions')
+                scan_records(part, where, ctx)
+                # one successful and one failing operation with the credential on the wire
+                proxy = c.proxy if hasattr(c, 'proxy') else c
+                for peer in ('real', 'failure'):
+                    w = w0.clone()
+                    try:
+                        log = []
+                        real = c19.real_responder(w, log)
+                        if peer == 'real':
+                            tr = c19.Transport(real)
+                        else:
+                            first = []
+
+                            def scripted(frame, real=real, first=first):
+                                good = real(frame)
+                                for label, resp in c19.derived_responses(good):
+                                    if label.startswith('failure:GENERAL_FAILURE'):
+                                        return resp
+                                return good
+                            tr = c19.Transport(scripted)
+                        proxy.socket = tr
+                        proxy.protocol = c19.KMIPProtocol(tr)
+                        if hasattr(c, '_is_open'):
+                            c._is_open = True
+                        W.LOGS.clear()
+                        try:
+                            if hasattr(c, 'proxy'):
+                                c.get(ids['key'])
+                            else:
+                                c.get(ids['key'])
+                        except Exception as e:   # noqa
+                            hits = scan(str(e))
+                            if hits:
+                                part.violation("client-error-text|config-op|%s" % hits[0],
+                                               "a client operation error contains %s" % hits, ctx)
+                        part.count('executions')
+                        scan_records(part, where + '|' + peer, ctx,
+                                     sent=tuple(x.hex() for pair in log for x in pair))
+                    finally:
+                        w.close()
+        # server configuration: every setting a canary path/text, including ones the parser refuses
+        for i, shape in enumerate(SECRET_SHAPES):
+            secret = shape.format(c=pw)
+            path = os.path.join(tmp, 'server-%d.conf' % i)
+            with open(path, 'w') as f:
+                f.write("[server]\nhostname=127.0.0.1\nport=5696\ncertificate_path=/x/%s\n"
+                        "key_path=/x/%s\nca_path=/x/ca\nauth_suite=Basic\npolicy_path=/x/p\n"
+                        "enable_tls_client_auth=False\ntls_cipher_suites=\nlogging_level=INFO\n"
+                        "database_path=/x/%s.db\n[auth:slugs]\nenabled=True\nurl=http://%s:%s@slugs/\n"
+                        % (user, user, user, user, secret))
+            W.LOGS.clear()
+            try:
+                server_config.KmipServerConfig().load_settings(path)
+            except Exception as e:   # noqa
+                hits = scan(str(e))
+                if 'password-text' in hits:
+                    part.violation("server-config-error-text|password",
+                                   "loading a server configuration whose SLUGS URL embeds a password "
+                                   "(shape %r) raised an error containing it" % shape,
+                                   {'workload': 'config', 'builder': 'server', 'shape': shape})
+            part.count('executions')
+            scan_records(part, 'config-server|%s' % shape, {'workload': 'config', 'builder': 'server',
+                                                            'shape': shape})
+        part.sample({'workload': 'configuration files and credentials', 'shapes': SECRET_SHAPES[:6]})
+    finally:
+        _FORMS = saved
+        c19._BASE = None
+        w0.close()
+        shutil.rmtree(tmp, ignore_errors=True)
+
+
 def _worker(task):
     kind, tier, shard, n = task
     part = Part()
@@ -338,6 +464,8 @@ def _worker(task):
         grid_workload(part, tier, shard, n)
     elif kind == 'decode':
         decode_failure_workload(part, tier, shard, n)
+    elif kind == 'config':
+        config_workload(part, tier)
     else:
         client_workload(part, tier)
     return part.as_dict()
@@ -346,7 +474,7 @@ def _worker(task):
 def run(tier, seed):
     rep = Reporter('C20', 'exploration', tier, seed)
     tasks = [('grid', tier, i, 12) for i in range(12)] + [('decode', tier, i, 8) for i in range(8)] + \
-            [('client', tier, 0, 1)]
+            [('client', tier, 0, 1), ('config', tier, 0, 1)]
     for part in pmap(_worker, tasks):
         rep.merge(part)
     ex = rep.counters.get('executions', 0)
@@ -360,7 +488,10 @@ def run(tier, seed):
              "over canary objects as owner and as non-owner, every C12 mutation of 13 canary-carrying "
              "requests (credentials, key material, plaintext, derivation data) with and without a usable "
              "client identity, and every client operation against the real server and against scripted "
-             "failures. distinct_nontrivial = number of distinct canary text forms searched for (raw, "
+             "failures; clients built from configuration files and from arguments whose password is a "
+             "canary in 14 text shapes (%, %(x)s, ${x}, quotes, ...), each followed by an operation "
+             "carrying the credential, and server configuration files with a password-bearing SLUGS "
+             "URL. distinct_nontrivial = number of distinct canary text forms searched for (raw, "
              "repr, hex lower/upper, base64, utf-8 of 13 canaries)",
         log_records_scanned=recs, canaries=len(all_canaries()), exhaustive=False,
     ), assumptions=[
